@@ -46,6 +46,8 @@ pub trait FbLike {
     fn img_get(&self, x: i32, y: i32) -> Option<u32>; // as_image().pixel
     fn raw_img_get(&self, x: i32, y: i32) -> Result<Option<u32>, String>; // ImageRaw::new(&data[..BUFFER_SIZE], size).pixel
     fn bytes(&self) -> Vec<u8>;
+    /// Default::default / new / data / data_mut / OriginDimensions::size / Dimensions::bounding_box agree
+    fn api_check(&self) -> Result<usize, String>;
     fn bytes_mut(&mut self) -> &mut [u8];
     /// Image::new(&as_image(), offset).draw on a draining native target: (area, colours, pulled, map)
     fn img_draw_native(&self, ox: i32, oy: i32) -> (String, Vec<u32>, usize, BTreeMap<(i32, i32), u32>);
@@ -138,6 +140,46 @@ macro_rules! impl_fblike {
             }
             fn bytes(&self) -> Vec<u8> {
                 self.data().to_vec()
+            }
+            fn api_check(&self) -> Result<usize, String> {
+                let d = <Self as Default>::default();
+                let n = Self::new();
+                if d.data()[..] != n.data()[..] || d.data().iter().any(|b| *b != 0) || d.data().len() != N {
+                    return Err(format!("Framebuffer::default(): data {:?}, Framebuffer::new() has {:?} ({} zero bytes expected)", &d.data()[..], &n.data()[..], N));
+                }
+                for y in -1..=(H as i32) {
+                    for x in -1..=(W as i32) {
+                        let p = Point::new(x, y);
+                        let (a, b) = (d.as_image().pixel(p).map(|c| c.tag()), n.as_image().pixel(p).map(|c| c.tag()));
+                        let inside = x >= 0 && y >= 0 && (x as usize) < W && (y as usize) < H;
+                        if a != b || a != if inside { Some(0) } else { None } {
+                            return Err(format!("Framebuffer::default().as_image().pixel({},{}) = {:?}, new() gives {:?}", x, y, a, b));
+                        }
+                    }
+                }
+                if self.size() != Size::new(W as u32, H as u32) {
+                    return Err(format!("OriginDimensions::size() = {:?} for WIDTH {} HEIGHT {}", self.size(), W, H));
+                }
+                if self.bounding_box() != Rectangle::new(Point::zero(), Size::new(W as u32, H as u32)) {
+                    return Err(format!("Dimensions::bounding_box() = {:?} for WIDTH {} HEIGHT {}", self.bounding_box(), W, H));
+                }
+                // data() and data_mut() are views of the same N bytes
+                let mut m = Self::new();
+                if m.data_mut().len() != N {
+                    return Err(format!("data_mut() has {} bytes, N = {}", m.data_mut().len(), N));
+                }
+                for (i, b) in m.data_mut().iter_mut().enumerate() {
+                    *b = (i as u8).wrapping_mul(29) ^ 0x5A;
+                }
+                for (i, b) in m.data().iter().enumerate() {
+                    if *b != (i as u8).wrapping_mul(29) ^ 0x5A {
+                        return Err(format!("data()[{}] = {} after writing {} through data_mut()", i, b, (i as u8).wrapping_mul(29) ^ 0x5A));
+                    }
+                }
+                if self.data().len() != N || self.data()[..] != self.bytes()[..] {
+                    return Err("data() length".into());
+                }
+                Ok((W + 2) * (H + 2) + 2 * N + 3)
             }
             fn bytes_mut(&mut self) -> &mut [u8] {
                 &mut self.data_mut()[..]
@@ -572,7 +614,10 @@ fn p_each(a: &[&str]) -> String {
     };
     let (w, h, bs, n) = proto.dims();
     let maxv: u64 = if bpp >= 32 { u32::MAX as u64 } else { (1u64 << bpp) - 1 };
-    let mut checks = 0;
+    let mut checks = match proto.api_check() {
+        Ok(k) => k,
+        Err(e) => return format!("FAIL {}", e),
+    };
     for round in 0..2 {
         // background: a full pattern written through set_pixel (so that the padding bits stay zero in
         // round 0) or raw bytes (round 1: padding bits set, they must survive)
